@@ -246,17 +246,30 @@ func (r *attRunner) policy(sc *attScen, c *attCase, tm *attTime, ev *attEval, rn
 			pol.TDX.AllowedTdxModules = []pcs.TdxModulePolicy{{MrSignerSeam: other}, m}
 		}
 	case "notallowed":
+		// an entry matches only if every field it pins matches: wrong signer alone, wrong measurement with the right
+		// signer, the right measurement with a wrong signer, and a list of two entries each wrong in one field
 		var m pcs.TdxModulePolicy
-		if rng.Intn(2) == 0 {
-			m.MrSignerSeam = signer
+		m.MrSignerSeam = signer
+		switch rng.Intn(4) {
+		case 0:
 			m.MrSignerSeam[0] ^= 1
-		} else {
-			m.MrSignerSeam = signer
+		case 1:
 			s := seam
 			s[47] ^= 0x80
 			m.MrSeam = &s
+		case 2:
+			s := seam
+			m.MrSeam = &s
+			m.MrSignerSeam[rng.Intn(48)] ^= 1 << uint(rng.Intn(8))
 		}
 		pol.TDX = &pcs.TdxQuotePolicy{AllowedTdxModules: []pcs.TdxModulePolicy{m}}
+		if m.MrSignerSeam == signer && m.MrSeam == nil { // case 3
+			s1, s2 := seam, seam
+			s2[0] ^= 4
+			w := signer
+			w[47] ^= 2
+			pol.TDX.AllowedTdxModules = []pcs.TdxModulePolicy{{MrSeam: &s1, MrSignerSeam: w}, {MrSeam: &s2, MrSignerSeam: signer}}
+		}
 	}
 	return pol, false
 }
